@@ -163,7 +163,12 @@ func checkDirected(b *harness.B, rng *rand.Rand) {
 				got = append(got, in.Parent.StateElement.MerkleProof)
 			}
 		}
-		if !reflect.DeepEqual(got, want) {
+		same := len(got) == len(want)
+		for i := 0; same && i < len(got); i++ {
+			// a leaf that is a tree of its own has no proof hashes: nil and empty are the same proof
+			same = len(got[i]) == len(want[i]) && (len(got[i]) == 0 || reflect.DeepEqual(got[i], want[i]))
+		}
+		if !same {
 			b.Violate("C11/roundtrip/multiproof/shared-leaf/proof-not-restored", fmt.Sprintf("with one chain-index leaf referenced by %d storage proofs (and a parent referenced twice) the multiproof round trip does not restore every proof", refs), map[string]any{"references": refs, "leaves": n})
 		}
 	}
